@@ -16,7 +16,8 @@ imports `reflect`. The import sets are extracted from the files on every run. -/
 theorem no_reflect : generatedImportSets.all (fun s => !s.contains "\"reflect\"") = true := by decide
 
 /-- On every path made of struct fields, non-nil pointers and struct-slice indices that ends on an existing
-scalar, string or bytes element, the reference GetTo hands out is the address of the live element. -/
+element — a scalar, string or bytes leaf, or a struct, slice or map — the reference GetTo hands out is the
+address of the live element. -/
 theorem alias_live (n : Node) (v : Val) (p : List Seg) (hok : AliasOK n = true)
     (h : inAliasClass n v p = true) : aliasN n v p true = some true :=
   aliasN_live p n v hok h
@@ -28,6 +29,9 @@ def exNode : Node :=
 def exVal : Val := .struct [.slice false [.ptr (.struct [.int 3])] 1]
 def exPath : List Seg := [{ text := strBytes "L" }, { text := strBytes "0", pi := some 0 }, { text := strBytes "A" }]
 example : AliasOK exNode = true ∧ inAliasClass exNode exVal exPath = true := by decide +kernel
+/-- The class also holds paths that end on a container: the slice field `L`, its element `L.0`. -/
+example : inAliasClass exNode exVal (exPath.take 1) = true ∧ inAliasClass exNode exVal (exPath.take 2) = true ∧
+    aliasN exNode exVal (exPath.take 1) true = some true := by decide +kernel
 /-- Outside the class the reference may be a copy: an element of a map is a local copy. -/
 example : aliasN (.map { typn := "map[string]int" } (.basic { typn := "string", typu := "string" }) (.basic { typn := "int", typu := "int" }))
     (.map false [.str (strBytes "a")] [.int 1]) [{ text := strBytes "a" }] true = some false := by decide +kernel
